@@ -15,7 +15,7 @@ STUBS = c02.STUBS
 ASSUMPTIONS = ['delivery k of a victim is matched to its k-th accepted issue (causes are unique per issue)',
                'a process is "finished" for clause 5 when Process.is_alive is False at the call']
 PROBES = ['resource_requests', 'interrupted_while_waiting_on_condition', 'intr_at_instant_target_due', 'ge3_pending_for_one_victim', 'victim_died_with_pending',
-          'victim_rewaits_same_event', 'interrupt_finished_refused', 'interrupt_self_refused',
+          'victim_rewaits_same_event', 'observed_without_probes', 'interrupt_finished_refused', 'interrupt_self_refused',
           'cowaiter_kept_outcome', 'interrupt_before_first_statement_attempt']
 
 
@@ -44,6 +44,10 @@ def gen(rng, tier):
     case = gen_program(rng, prof)
     from .c01 import _maybe_long_run
     _maybe_long_run(rng, tier, case)
+    if rng.random() < 0.2 and not case.get('long_run'):
+        # observed without probe callbacks: the kernel sees exactly the callback lists a production run has (a timeout
+        # whose only waiter was interrupted has none); the checks then rest on what the bodies observe and on step counts
+        case['noprobe'] = True
     return case
 
 
@@ -160,6 +164,36 @@ def check(log, quiescent):
     return viol, stats, nontrivial
 
 
+def unprobed(log, quiescent, w):
+    """Clause 4 without per-occurrence records: the event a victim was pulled off keeps its outcome for a re-yield."""
+    viol = []
+    if not quiescent:
+        return viol
+    n_trig = sum(1 for r in log if r[0] == 'T')
+    n_step = len(set(r[3] for r in log if r[0] == 'N'))
+    if n_trig != n_step and not any(r[0] == 'O' and r[6] == 'tick' for r in log):
+        viol.append(('C04.4', 'agenda empty after %d kernel steps although %d occurrences had been triggered (an occurrence '
+                     'a victim was pulled off must still happen)' % (n_step, n_trig)))
+    kinds = dict((r[2], r[3]) for r in log if r[0] == 'T')
+    open_y = {}
+    intr_on = set()
+    for r in log:
+        if r[0] == 'Y':
+            open_y[r[4]] = r
+        elif r[0] == 'R':
+            open_y.pop(r[4], None)
+            if r[7] == 'intr':
+                intr_on.add(r[6])
+        elif r[0] == 'E':
+            open_y.pop(r[4], None)
+    for pid, y in sorted(open_y.items()):
+        if kinds.get(y[6]) == 'timeout' and y[6] in intr_on:
+            viol.append(('C04.4', '%s yielded the timeout %s again after an interrupt had pulled a waiter off it and was '
+                         'never resumed although the agenda is empty' % (pid, y[6])))
+            break
+    return viol
+
+
 def deliveries_on_cond(log):
     conds = set(r[4] for r in log if r[0] == 'K')
     return any(r[0] == 'R' and r[7] == 'intr' and r[6] in conds for r in log)
@@ -172,6 +206,11 @@ def run(case):
     steps = drive(w, case.get('drive', [['run']]), max_steps=4000 + (1200000 if case.get('long_run') else 0))
     quiescent = env.peek() == float('inf') and steps < 4000 + (1200000 if case.get('long_run') else 0)
     viol, stats, nontrivial = check(env.log, quiescent)
+    if case.get('noprobe'):
+        stats['observed_without_probes'] = 1
+        viol += unprobed(env.log, quiescent, w)
+        return {'viol': viol, 'digest': digest_of(env.log), 'nontrivial': nontrivial, 'stats': stats,
+                'simtime': float(env.now) - float(case.get('t0', 0)), 'steps': steps}
     # clause 4 (detachment, co-waiters keep the outcome, later re-yield) is the waiter bookkeeping of C02
     final = {}
     for pid, p in w.procs.items():
